@@ -260,6 +260,11 @@ def jobs(tier):
                 continue
         out.append(dict(obs=f"{kind}_{fl}", process=proc, fns=fns, nfff=nfff, nf=nf, pto=pto,
                         projectile="neutrino" if proc == "CC" else "electron", ren_sv=ren, fact_sv=fact))
+    # the DIS order (PTODIS) may differ from the evolution order (PTO): the logarithmic terms follow the DIS order
+    for kind, (fns, nfff, nf), (pto, pto_evol) in itertools.product(["F2", "F3"] if tier == "quick" else kinds, schemes, [(1, 0), (2, 1), (1, 2), (2, 0)]):
+        if tier == "quick" and kind == "F3" and fns != "ZM-VFNS":
+            continue
+        out.append(dict(obs=f"{kind}_total", process="NC", fns=fns, nfff=nfff, nf=nf, pto=pto, pto_evol=pto_evol, projectile="electron", ren_sv=True, fact_sv=True))
     return out
 
 
